@@ -137,6 +137,7 @@ prop("C12", "exploration",
          {"harness": "eng", "flavour": "shim+pool", "args": {"quick": ["--mode", "c01", "--n", "3"], "thorough": ["--mode", "c01", "--n", "40"]}, "timeout": {"quick": 600, "thorough": 3400}},
          {"harness": "eng", "flavour": "shim+pool", "args": {"quick": ["--mode", "c08", "--n", "4"], "thorough": ["--mode", "c08", "--n", "40"]}, "timeout": {"quick": 600, "thorough": 3400}},
          {"harness": "eng", "flavour": "shim+pool", "args": {"quick": ["--mode", "c17"], "thorough": ["--mode", "c17"]}, "timeout": {"quick": 600, "thorough": 3400}},
+         {"harness": "addr", "args": {"quick": ["--n", "60000"], "thorough": ["--n", "600000"]}, "timeout": {"quick": 300, "thorough": 900}},
          {"harness": "eng", "flavour": "shim+pool", "tiers": ["thorough"], "args": {"thorough": ["--mode", "c04", "--n", "40"]}, "timeout": {"thorough": 3400}},
      ],
      "Ledger monitor over the real pools plus Go's checkptr/ASan instrumentation: aliasing is a relation between two live slices, so it is checked against the set of outstanding "
@@ -321,8 +322,9 @@ prop("C08", "exploration",
      "class, answer kind) and (network, consumption choice) tuples",
      [
          {"harness": "eng", "flavour": "shim", "args": {"quick": ["--mode", "c08"], "thorough": ["--mode", "c08"]}, "timeout": {"quick": 900, "thorough": 3400}},
-         {"harness": "eng", "flavour": "shim", "tags": ["poll_opt"], "args": {"quick": ["--mode", "c08", "--n", "4"], "thorough": ["--mode", "c08", "--n", "40"]}, "timeout": {"quick": 900, "thorough": 3400}},
+         {"harness": "eng", "flavour": "shim", "tags": ["poll_opt"], "args": {"quick": ["--mode", "c08", "--n", "8"], "thorough": ["--mode", "c08", "--n", "40"]}, "timeout": {"quick": 900, "thorough": 3400}},
          {"harness": "eng", "flavour": "shim", "arch": "386", "args": {"quick": ["--mode", "c08", "--n", "4"], "thorough": ["--mode", "c08", "--n", "40"]}, "timeout": {"quick": 900, "thorough": 3400}},
+         {"harness": "addr", "wrap": ["/verif/selftest/netns_wrap.sh"], "args": {"quick": ["--n", "60000"], "thorough": ["--n", "600000"]}, "timeout": {"quick": 300, "thorough": 900}},
      ],
      "Per-datagram identity oracle inside OnTraffic and at every client socket, cross-checked with the shim's recvfrom/sendto counts.",
      "datagram sizes up to the read buffer (64 KiB); loopback only", "runtime monitor: per-datagram identity oracle + shim call counts", "DESIGN.md §3 C08", assumptions=ENGINE_ASSUME)
